@@ -71,9 +71,9 @@ func (m *mctx) send(b []byte) error {
 
 func (m *mctx) recvCall() ([]byte, error) {
 	if m.c != nil {
-		return m.c.Recv()
+		return kit.Recv(m.c)
 	}
-	return m.s.Recv()
+	return kit.Recv(m.s)
 }
 
 type world struct {
@@ -637,7 +637,7 @@ func SlowPeerHist(depth int) {
 		}
 		if recv == nil {
 			evs = append(evs, kit.Event{Name: "recv", Run: func() {
-				recv = kit.Start("Recv", func() (interface{}, error) { b, err := s.Recv(); return string(b), err })
+				recv = kit.Start("Recv", func() (interface{}, error) { b, err := kit.Recv(s); return string(b), err })
 			}})
 		}
 		return evs
